@@ -13,10 +13,11 @@ CONSTANTS
  CacheDroppedFirst = TRUE
  Drivers <- BothDrivers
  BuildCleansOnEmpty = TRUE
- BuildProbes = TRUE
+ BuildProbes = FALSE
  MaxEnv = 2
  MaxRuns = 3
  MaxFaults = 1
 VIEW View
 INVARIANTS C08_SuccessMeansCurrent C14_ForceRegenerates C13_OrderIndependent C17_FailureReported C17_CacheNotNewer
+PROPERTIES C14_NoChangeNoWrite C16_ProbeUntouched
 CHECK_DEADLOCK FALSE
